@@ -211,4 +211,88 @@ def k5(ctx, kr):
     kr.exhaustive = True
     kr.outside = ['token texts of other lengths; several tokens; the same for lexical errors (C14-K2)']
 
-KERNELS = [k2, k3, k4, k5]
+# ---------------------------------------------------------------------------------------------- K6 the whole front end on template shapes: a result, never a panic
+BIG = ['10', '170141183460469231731687303715884105727', '170141183460469231731687303715884105728', '340282366920938463463374607431768211455', '340282366920938463463374607431768211456']
+C04_TEMPLATES = {
+    'task_interval_kinds': ['CONFIGURATION c\nRESOURCE r ON PLC\n  TASK t(INTERVAL := ', ('alt', ['T#1s', '5', '1.5', 'TRUE', "'a'", 'x', 'TOD#12:00:00', 'INT#5']), ', PRIORITY := ', ('alt', ['1', '0', '4294967295', '4294967296']), ');\n  PROGRAM i WITH t : p;\nEND_RESOURCE\nEND_CONFIGURATION\n'],
+    'subrange_limits': ['TYPE\n  r : INT(', ('alt', ['1', '-1', '-170141183460469231731687303715884105728', '-170141183460469231731687303715884105729']), '..', ('alt', BIG), ')', ('opt', ' := 2'), ';\nEND_TYPE\n'],
+    'array_bounds': ['TYPE\n  ar : ARRAY[', ('alt', ['1', '-1', '0']), '..', ('alt', BIG), ('opt', ', 3..2'), '] OF INT;\nEND_TYPE\n'],
+    'simple_types': ['TYPE\n  s : ', ('alt', ['INT', 'REAL', 'BOOL', 'TIME', 'STRING', 'other']), ('opt', ' := 5'), ';\n', ('opt', '  e : (a, b) := c;\n'), ('opt', '  st : STRING[0];\n'), ('opt', '  w : WSTRING[4294967296];\n'), 'END_TYPE\n'],
+    'struct_init': ['TYPE\n  s : STRUCT\n    a : INT;\n    n : s2;\n  END_STRUCT;\n  s2 : STRUCT\n    b : INT;\n  END_STRUCT;\nEND_TYPE\nFUNCTION_BLOCK fb\nVAR\n  v : s := (', ('alt', ['a := 1', 'a := 1, n := (b := 2)', 'zz := 1', 'a := 1, a := 2']), ');\n', ('opt', '  w : s2 := (b := 1);\n'), 'END_VAR\nEND_FUNCTION_BLOCK\n'],
+    'enum_defaults': ['TYPE\n  e : (a, b)', ('alt', ['', ' := a', ' := c', ' := e#a', ' := x#a']), ';\n  f : e', ('alt', ['', ' := b', ' := c']), ';\nEND_TYPE\nFUNCTION_BLOCK fb\nVAR\n  v : f', ('alt', ['', ' := a', ' := zz']), ';\nEND_VAR\nEND_FUNCTION_BLOCK\n'],
+}
+
+def _k6_job(job):
+    name, prefixes = job
+    from . import C10 as K10
+    ctx = _CTX; part = Part()
+    tpl = dict(K10.TEMPLATES, **C04_TEMPLATES)[name]
+    P = ctx.program()
+    k_parse = P.find_fn('ironplc-parser', 'parse_program'); k_an = P.find_fn('ironplc-analyzer', 'stages::analyze')
+    k_opt = [k for k in P.items if k[0] == 'ironplc-parser' and re.search(r'ParseOptions as (std::default::)?Default>::default|options::<impl at [^>]*>::default', k[1])]
+    holder = {}; st = {}
+    M = Machine(P, stubs=K10.dyn_lexer_stubs(ctx, holder), max_steps=800_000_000)
+    M.toposort_deterministic = True
+    dims = K10._shapes(tpl)
+    def entry(M):
+        choice = []
+        for i, d in enumerate(dims):
+            v = M.fresh_bv('seg%d' % i, 8); M.declare_domain(v, list(range(d)))
+            c = 0
+            for val in range(d - 1):
+                if M.branch(v == val): c = val; break
+                c = val + 1
+            choice.append(c)
+        st['choice'] = choice; st['stage'] = 'parse'
+        text = K10._tpl_text(tpl, choice); st['src'] = text
+        fid = Ref(Cell(Agg('FileId', [Str('f.st')])))
+        opts = Ref(Cell(M.call_fn(k_opt[0], []) if k_opt else Agg('ParseOptions', [False])))
+        r = M.call_fn(k_parse, [Ref(Cell(Str(text))), fid, opts])
+        if r.disc != 0: return 'rejected'
+        st['stage'] = 'analyze'
+        a = M.call_fn(k_an, [Ref(Cell(VecV([Ref(Cell(r.f[0]))])))])
+        return 'ok' if a.disc == 0 else 'diagnosed'
+    def on_path(M, pr):
+        part.paths += 1
+        src = st.get('src'); choice = st.get('choice')
+        if pr.inconclusive: part.inconc('%s: %s' % (name, pr.inconclusive)); return
+        part.nontrivial += 1
+        if pr.panic:
+            where = st.get('stage'); msg = re.sub(r'[^a-z]+', '-', pr.panic.msg.lower())[:44].strip('-')
+            part.add('C04/K6/%s/%s/%s' % (name, where, msg), '%s panics on a %s program (template %s, shape %s): %s' % ('parse_program' if where == 'parse' else 'analyze', 'rejected-or-accepted', name, choice, pr.panic.msg[:80]),
+                     {'source': src, 'stage': where}, ('frontend_panic', (src,)))
+        elif len(part.validate) < 1: part.validate.append(('frontend_panic', (src,)))
+        if len(part.samples) < 1: part.samples.append({'template': name, 'shape': choice, 'outcome': pr.result if not pr.panic else 'panic'})
+    M.explore(entry, on_path, prefixes=prefixes)
+    part.queries += M.stats['smt']; part.encoded = set(M.encoded); part.models = set(M.models_used)
+    return part
+
+@replay_factory('frontend_panic')
+def _replay_frontend_panic(src):
+    def rp(ctx):
+        r = ctx.replay({'cmd': 'analyze', 'sources': [src]})
+        return 'panic' in r, {'source': src[-300:], 'result': {k: str(v)[:200] for k, v in r.items() if k not in ('debug',)}}
+    return rp
+
+@kernel('K6 frontend.no_panic_on_template_shapes')
+def k6(ctx, kr):
+    global _CTX
+    _CTX = ctx
+    from . import C10 as K10
+    import itertools
+    TPL = dict(K10.TEMPLATES, **C04_TEMPLATES) if ctx.tier == 'thorough' else dict(C04_TEMPLATES, **{k: K10.TEMPLATES[k] for k in ('alias_type', 'var_kinds', 'literal_init', 'fb_call', 'function_call', 'case_statement', 'configuration_globals')})
+    names = list(TPL)
+    n = sum(len(list(itertools.product(*[range(d) for d in K10._shapes(TPL[t])]))) for t in names)
+    kr.bounds = ('parse_program followed by stages::analyze on %d shapes of %d source templates (limits around 2^127 and 2^128, non-duration task intervals, priorities around 2^32, undeclared names in initialisers, empty and huge string lengths, '
+                 'plus round-trip templates of C10): every shape yields a library or diagnostics, never a panic' % (n, len(names)))
+    jobs = []
+    for t in sorted(names, key=lambda t: -len(list(itertools.product(*[range(d) for d in K10._shapes(TPL[t])])))):
+        dims = K10._shapes(TPL[t]); first = dims[0] if dims else 1
+        for v in range(first): jobs.append((t, None) if first == 1 else (t, [K10._prefix_for(first, v)]))
+    for part in par_map(_k6_job, jobs): merge_part(kr, part)
+    P = ctx.program()
+    kr.functions = fn_paths(P, getattr(kr, '_enc', set()))[:150]
+    kr.exhaustive = True
+    kr.outside = ['programs other than the template shapes; stack depth on deeply nested input']
+
+KERNELS = [k2, k3, k4, k5, k6]
